@@ -1,11 +1,13 @@
 #![allow(unused)]
 
 use crate::sps::syntax::*;
-use std::collections::HashMap;
+use std::collections::BTreeMap;
 use zydeco_statics::surface_syntax::ScopedArena;
 use zydeco_syntax::{BuiltinValueRole, FloatOperation, IntegerOperation};
 
-pub type BuiltinMap = HashMap<String, Builtin>;
+/// Keyed by name in a sorted map: printers and emitters iterate the table, and
+/// their output must not depend on hash-map iteration order.
+pub type BuiltinMap = BTreeMap<String, Builtin>;
 
 #[derive(Clone, Debug, thiserror::Error)]
 pub enum BuiltinPackageLowerError {
